@@ -196,7 +196,7 @@ class Scenario:
             rd, err = self.ro("DigitalRFReader(top).get_digital_metadata('ch0')",
                               lambda: self.drf.DigitalRFReader(self.top).get_digital_metadata("ch0"))
         else:
-            rd, err = self.ro("DigitalMetadataReader(dir)", lambda: self.drf.DigitalMetadataReader(self.md))
+            rd, err = self.ro("DigitalMetadataReader(dir)", lambda: self.drf.DigitalMetadataReader(common.path_form(self.md)))
         if err is not None:
             self.res.violation("reader-construction-fails", "cannot construct a metadata reader on a valid tree",
                                self.replay_input("newreader"), "reader", repr(err))
